@@ -35,6 +35,10 @@ def run(cx):
     # ---- C05-ROUTE / C05-BREAK ---------------------------------------------------------------
     rule_scripts(cx, pm)
 
+    # ---- C05-E2E: phases, persistence and housekeeping order on whole sketches --------------------
+    from .. import e2e
+    e2e.rule_traces(cx, "C05-E2E", "c05", (pm, pf), "phase scripts (prologue once and in order, globals whose initialiser depends on re-assigned operands, values persisting between passes, a loop body that opens with a first assignment, button samples taken before any user statement of the pass): the emitted sketch evaluated for setup() and several loop() passes issues CPython's commands in CPython's order")
+
     # ---- C05-SCOPE ---------------------------------------------------------------------------
     # decided by evaluation: a corpus of scripts is parsed (partial evaluation) and the IR is placed in the block structure the
     # emitter produces (sa/irscope.py): a variable bound before the main loop is a file-scope variable, nothing is declared
